@@ -28,14 +28,15 @@ ASSUMPTIONS = [
 ]
 MANIFEST = dict(
     level_text=("Lean 4 theorems over the Mux latency model inside the tunnel world: while too_full, MuxWrapper.uwrite "
-                "takes nothing and a Proxy.callback queues no TCP_DATA frame (C09_gate); check_fullness queues at most "
-                "one rttest PING per too_full episode (C09_ping_once); a callback adds at most the 2048-byte cut to "
-                "fullness (C09_callback_bound, the per-connection overshoot constant); every PING is answered by a PONG "
-                "whatever the receiver's own state, and for every schedule too_full implies a PING or a PONG of that "
-                "episode is still in flight, so a drained tunnel is never too_full (C09_answered, C09_drained_not_full); "
-                "with check_fullness never called too_full stays false in every reachable state (C09_off). Replayed "
-                "against the real Mux objects; gate, ping-once, bound, resume and server start-up with every buffer "
-                "size are checked on the real code."),
+                "takes nothing and a Proxy.callback queues no TCP_DATA frame and never changes too_full (C09_gate_uwrite, "
+                "C09_gate); check_fullness queues exactly one rttest PING when it pauses and nothing while paused "
+                "(C09_ping_once); a callback adds at most the 2048-byte cut to fullness (C09_callback_bound, the "
+                "per-callback overshoot constant); a PING is answered by a PONG whatever the receiver's own state and a "
+                "PONG lifts the pause (C09_ping_answered); for EVERY schedule a paused end has its PING or the answering "
+                "PONG still in flight (C09_answered), so a drained tunnel is never paused (C09_drained_not_full); with "
+                "check_fullness never called too_full stays false in every reachable state (C09_off). Replayed against "
+                "the real Mux objects; gate, ping-once, bound, resume and server start-up with every buffer size are "
+                "checked on the real code."),
     level_note=("Trusted: as C01. Actual latency and the OS socket buffer in front of ssh are outside. Defect found and "
                 "repaired: server.main raised UnboundLocalError for --latency-buffer-size 0 (see known_findings/C09.json)."),
     technique="Lean 4 proof (invariants of the latency state machine over all schedules) + differential replay + wire-log oracle",
@@ -126,7 +127,7 @@ def scenario(ctx, rng, o):
         total = {}
         for i in range(len(t.flows)):
             for side in (('app', 'dst') if o.both else ('app',)):
-                n = rng.choice([3000, 9000, 40000]) if not o.big else 120000
+                n = rng.choice([3000, 9000, 20000]) if not o.big else (120000 if ctx.tier == 'thorough' else 50000)
                 sc.env_write(i, side, tg.payload(rng, n, i * 2 + (side == 'dst')))
         for _ in range(o.steps):
             if sc.stop:
@@ -179,7 +180,7 @@ def run(ctx):
     rng = ctx.rng
     server_start(ctx)
     all_in, all_out = [], []
-    n = ctx.scale(50, 1200)
+    n = ctx.scale(36, 1200)
     for k in range(n):
         o = tg.Opts(nflows=rng.choice([1, 2, 3, 4]), steps=rng.randrange(30, 120), latency=(k % 4 != 0),
                     bufsize=rng.choice([1, 5, 6, 7, 100, 2047, 2048, 2049, 32768, 1000000]),
